@@ -1,8 +1,8 @@
 """C18 — health check thresholds and selection: generator, implementation-side monitors"""
 from gen.util import kvs, tparse
 
-STRATS = ["first", "rr", "rr", "rr", "prefer", "prefer", "last", "oob", "none", "second"]
-BUILTIN = ("first", "rr", "prefer")
+STRATS = ["first", "rr", "rr", "rr", "prefer", "prefer", "random", "random", "last", "oob", "none", "second"]
+BUILTIN = ("first", "rr", "prefer", "random")
 
 
 def _lat(rng, to, iv):
@@ -125,7 +125,7 @@ def gen(rng, tier):
                 ops.append("probe status r=%d" % r)
         k = rng.random()
         if k < 0.45:
-            burst = rng.choice([1, 2, n, n + 1, 2 * n + 1]) if strat == "rr" else rng.choice([1, 1, 2])
+            burst = rng.choice([1, 2, n, n + 1, 2 * n + 1]) if strat in ("rr", "random") else rng.choice([1, 1, 2])
             which = rng.choice(["get_healthy", "get_usable", "mixed"])
             for _ in range(max(1, burst)):
                 ops.append("probe " + (which if which != "mixed" else rng.choice(["get_healthy", "get_usable"])))
@@ -356,16 +356,21 @@ def mon_slow_is_failed(case, lines, meta):
 
 def mon_selection(case, lines, meta):
     """second sentence: soundness of get_healthy / get_usable, none iff none qualifies (built-in
-    strategies; a custom selector may decline), round-robin evenness over a fixed eligible set"""
+    strategies, Random included; a custom selector may decline), round-robin evenness: over consecutive selections
+    whose eligible sets coincide — of either method, and also when checks completed and statuses changed in between
+    (fairness across status changes: TR.Props.C18.round_robin_fair_across_changes) — every k of them (k = size of
+    the set) return k different resources"""
     n, _, _, strat = _cfg(case)
     cur = None          # statuses from the last `probe all`, valid while no check completes
-    window = []         # consecutive round-robin selections: (eligible tuple, result)
+    window = []         # consecutive round-robin selections: (eligible tuple, result); emptied by a selection whose
+                        # eligible set is not known (no `probe all` since the last completed check)
     for e in _events(lines):
         if e[0] == "out":
             cur = None
-            window = []
         elif e[0] == "all":
             cur = e[1]
+        elif e[0] == "get" and cur is None:
+            window = []
         elif e[0] == "get" and cur is not None:
             which, res = e[1], e[2]
             ok = ("healthy",) if which == "get_healthy" else ("healthy", "degraded")
@@ -426,6 +431,8 @@ def transitions(case, lines, meta=None):
     stopped = hk.get("start", "1") == "0"
     done_at = {}        # resource -> instant of the latest completion of a check of it that had been in flight
     begun = {}          # serial -> instant of check_start
+    cur_all = None      # statuses of the last `probe all`, None once a check completed after it
+    prev_get = None     # (eligible tuple of the previous selection, a check completed since)
     for l in lines:
         t, w = tparse(l)
         if not w:
@@ -433,6 +440,9 @@ def transitions(case, lines, meta=None):
         if w[0] in ("check_done", "check_drop"):
             r, k = w[1], w[-1]
             tags.append("done-" + w[2] if w[0] == "check_done" else "timeout")
+            cur_all = None
+            if prev_get is not None:
+                prev_get = (prev_get[0], True)
             if w[0] == "check_drop" and e["to"] == 0:
                 tags.append("timeout-0-cut-off-at-first-poll")
             inflight.pop(k, None)
@@ -476,6 +486,7 @@ def transitions(case, lines, meta=None):
             if X == "unhealthy" and s > 0:
                 tags.append("unhealthy-with-successes-below-threshold")
         elif w[0] == "probe" and w[1] == "all" and w[3] != "-":
+            cur_all = w[3].split(",")
             for r, x in enumerate(w[3].split(",")):
                 p = last.get(r, "k")
                 if p != x:
@@ -485,6 +496,19 @@ def transitions(case, lines, meta=None):
             tags.append("%s-%s" % (w[1], "none" if w[3] == "none" else "some"))
             if strat == "rr" and w[3] != "none":
                 tags.append("rr-select")
+            if strat == "random":
+                tags.append("random-select" if w[3] != "none" else "random-none")
+            if cur_all is None:
+                prev_get = None
+            else:
+                ok = ("h",) if w[1] == "get_healthy" else ("h", "d")
+                elig = tuple(i for i, x in enumerate(cur_all) if x in ok)
+                if strat == "rr" and prev_get is not None and elig:
+                    if prev_get[1] and prev_get[0] == elig:
+                        tags.append("rr-same-set-across-completed-checks")
+                    if prev_get[0] != elig and prev_get[0]:
+                        tags.append("rr-eligible-set-changed")
+                prev_get = (elig, False)
     return tags
 
 
@@ -492,6 +516,7 @@ ALL_TRANSITIONS = ["done-h", "done-d", "done-u", "done-k", "timeout", "two-round
                    "usable-with-failures-below-threshold", "unhealthy-with-successes-below-threshold",
                    "flip-k-h", "flip-k-d", "flip-k-u", "flip-h-d", "flip-h-u", "flip-d-h", "flip-d-u", "flip-u-h", "flip-u-d",
                    "get_healthy-some", "get_healthy-none", "get_usable-some", "get_usable-none", "rr-select",
+                   "rr-same-set-across-completed-checks", "rr-eligible-set-changed", "random-select", "random-none",
                    "via-cfg", "crate-default-used", "setter-after-with_config", "setter-before-with_config", "closure-checker",
                    "timeout-0-cut-off-at-first-poll", "two-completions-one-resource-one-instant", "completes-after-stop",
                    "two-checks-of-one-resource-in-flight", "start-after-stop", "start-again", "restart-with-checks-in-flight",
@@ -508,7 +533,12 @@ LEVEL_NOTE = ("Trusted: Lean kernel; the transcription of tokio's interval (Miss
               "only by the sampled correspondence check; the harness (virtual clock, scripted checker) and the python diff/monitors. "
               "The theorems are about the per-resource fold of completed checks and the selection functions; Lemmas.Health proves that every "
               "reachable state of the timed model is that fold of its own history. Not verified: counter wrap at 2^64 / usize; a status change "
-              "between the filter and the re-read inside select (possible only on a multi-thread runtime); the Random strategy (feature off). "
+              "between the filter and the re-read inside select (possible only on a multi-thread runtime). "
+              "SelectionStrategy::Random (cargo feature `random`, on in the harness build): the result of every selection is an observed choice "
+              "(@pick=), the model recovers the draw that explains it and accepts exactly the eligible resources (TR.Props.C18.random_observed_choice); "
+              "the distribution of the draws is not examined. The fuel of the model's `quiesce` is proved adequate for every configuration "
+              "(quiesce_fuel_suffices, fuel_is_irrelevant). Lemmas.HealthLog proves that the ghost history of each resource is the check_done / check_drop "
+              "lines of the event log and that every probe line of the log reports the fold of the check lines before it (every prefix). "
               "Finding (not a failure of the theorems as designed): get_healthy and get_usable share one round-robin cursor, so interleaved "
               "calls over different eligible sets are not even per method (witness corpus/health/rr_shared_cursor.ops, "
               "TR.Props.C18.shared_cursor_starves). "
@@ -529,11 +559,11 @@ SPECS = {
         "transitions": transitions,
         "nontrivial": nontrivial,
         "all_transitions": ALL_TRANSITIONS,
-        "model_modules": ["TR.Model.Health", "TR.Lemmas.Health"],
-        "lean_files": ["TR.Model.Health", "TR.Lemmas.Health"],
+        "model_modules": ["TR.Model.Health", "TR.Lemmas.Health", "TR.Lemmas.HealthSelect", "TR.Lemmas.HealthLog", "TR.Lemmas.HealthFuel"],
+        "lean_files": ["TR.Model.Health", "TR.Lemmas.Health", "TR.Lemmas.HealthSelect", "TR.Lemmas.HealthLog", "TR.Lemmas.HealthFuel"],
         "sizes": (500, 30000),
         "rule": "seeded random cases: 0..5 resources, thresholds 0..4, interval 0..20 ms, check timeout 0..25 ms (also longer than the "
-                "interval), initial delay, all strategies incl. four custom selectors; per-resource regime-based result scripts "
+                "interval), initial delay, all strategies incl. Random (observed choices) and four custom selectors; per-resource regime-based result scripts "
                 "(runs of passing / failing / alternating / unknown results, never-completing checks, latencies at timeout-1/timeout/timeout+1); "
                 "advances of interval-1/interval/interval+1, timeout+-1, multiples (missed ticks) and long jumps; after each advance all "
                 "statuses, details and bursts of get_healthy/get_usable; a stream of invalid operations; 35 % of the cases built through HealthCheckConfig::builder() + "
@@ -549,7 +579,13 @@ SPECS = {
         "level_text": "Theorems TR.Props.C18.{unhealthy_only_after_threshold, healthy_only_after_run, degraded_at_once, unknown_changes_nothing, "
                       "get_healthy_sound, get_usable_sound, none_iff_none, none_when_none_any_strategy, round_robin_even, reachable_is_fold, "
                       "slow_check_counts_as_failed, timeout_zero_first_poll, timed_out_only_when_due, restart_and_stop_keep_state, stopped_freezes, "
-                      "health_change_calls_are_the_transitions, callbacks_per_check, callbacks_only_observe, crate_default_ok, u8_roundtrip}: "
+                      "health_change_calls_are_the_transitions, callbacks_per_check, callbacks_only_observe, crate_default_ok, u8_roundtrip; "
+                      "over the event log: hist_is_log, status_is_fold_of_log, every_probe_reports_the_log_before_it, unhealthy_after_failed_run_log, "
+                      "healthy_after_ok_run_log, degraded_at_once_log, flip_to_unhealthy_between_observations, flip_to_healthy_between_observations, "
+                      "unknown_changes_nothing_log, got_sound_log, got_none_log; round-robin: round_robin_rounds, round_robin_balanced, "
+                      "round_robin_pick_formula, round_robin_fair_across_changes, shared_cursor_one_rotation, shared_cursor_counts_both_methods, "
+                      "rr_selection_line_is_the_rotation, clamped_cursor_is_not_round_robin; Random: random_pick_is_eligible, "
+                      "random_every_eligible_possible, random_observed_choice; fuel: quiesce_fuel_suffices, fuel_is_irrelevant}: "
                       "for all sequences of completed checks (healthy/degraded/unhealthy/unknown/timed-out), all thresholds, any number of "
                       "resources and all strategies (custom = any function), every timeout (0 included), every sequence of operations incl. start()/stop(). "
                       "The model is tied to the real HealthCheckWrapper by agreement of "
